@@ -125,6 +125,13 @@ inductive RxRes where
   | ok (groups : List (Option (Nat × Nat)))
 deriving Repr, DecidableEq
 
+/-- The three time stamps of `struct stat` a date condition can look at (`tv_sec` of each). -/
+structure FileTimes where
+  atime : Int                                   -- `st_atim.tv_sec`
+  mtime : Int                                   -- `st_mtim.tv_sec`
+  ctime : Int                                   -- `st_ctim.tv_sec`
+deriving Repr, DecidableEq
+
 /-- What the evaluator asks its environment. -/
 structure Env where
   rx : Pat → Bytes → RxRes
@@ -133,7 +140,8 @@ structure Env where
   now : Int
   strptime : Bytes → Option (Tm × Bytes)
   zoneName : Bytes → Option Int
-  fileTime : DateField → Option (Int × Bytes)   -- `stat(path)`: seconds and its `time_format`
+  fileTime : Bytes → Option FileTimes           -- `stat(path, &st)`: `none` = -1, else the three time stamps
+  timeFormat : Int → Option Bytes := fun _ => none   -- `time_format(tim, buf, sizeof(buf))`: `none` = NULL
   dryrun : Bool
   path : Bytes                                  -- `message_get_path(msg)`
 
@@ -422,9 +430,19 @@ def eval (env : Env) (root : Msg) : Expr → (part : Nat) → Msg → St → Tri
           | none => none                                     -- error
           | some t => some (some (t, d))
       | f =>
-        match env.fileTime f with
+        -- `ts = &st.st_atim | &st.st_mtim | &st.st_ctim` by field, then `stat(message_get_path(msg), &st)`,
+        -- `tim = ts->tv_sec`, `date = time_format(tim, ..)`; a failing `stat` / `time_format` is EXPR_ERROR
+        match env.fileTime env.path with
         | none => none
-        | some (t, s) => some (some (t, s))
+        | some sb =>
+          let tim : Int := match f with
+            | .access => sb.atime
+            | .modified => sb.mtime
+            | .created => sb.ctime
+            | .header => 0                                   -- UNREACHABLE (handled above)
+          match env.timeFormat tim with
+          | none => none
+          | some s => some (some (tim, s))
     match dt with
     | none => (.error, st)
     | some none => (.nomatch, st)
